@@ -164,7 +164,8 @@ def run_property(args):
     crashes = []
     ctxm = mp.get_context("fork")
     _big_frame()            # compile once, the workers inherit it
-    with ctxm.Pool(args.jobs) as pool:
+    pool = ctxm.Pool(args.jobs)
+    try:
         # phase 1: the first two levels of every path tree (cheap), so that
         # phase 2 can spread sub-trees of big functions over all cores
         frontier = {cid: [()] for cid in cids}
@@ -189,6 +190,11 @@ def run_property(args):
                 crashes.append((cid, err))
             else:
                 results[cid] = merge_results(results[cid], r) if cid in results else r
+    finally:
+        # close+join instead of the context manager's terminate(): the workers
+        # are idle here and terminate() can wait a long time on a busy machine
+        pool.close()
+        pool.join()
 
     # extra engines (ownership analysis, C helper VC, bounded stand-ins ...)
     extra = []
